@@ -4,6 +4,7 @@ import (
 	"encoding/json"
 	"fmt"
 	"math"
+	"math/big"
 	"sort"
 	"strconv"
 	"strings"
@@ -165,7 +166,7 @@ func govTerm(v any) (string, bool) {
 		case []byte:
 			b.WriteString("(GBytes " + gBytes(string(tv)) + ")")
 		case time.Time:
-			b.WriteString("(GTime " + common.GZ(tv.UnixNano()) + ")")
+			b.WriteString("(GTime " + common.GZs(timeNanos(tv)) + ")")
 		case json.Number:
 			b.WriteString("(GNum " + gBytes(string(tv)) + ")")
 		case []any:
@@ -250,6 +251,10 @@ func genGoScalar(r *common.Rng, guarded bool, hist func(string)) any {
 		return common.Pick(r, floatPool)
 	case x < 66:
 		hist("go:time")
+		if r.Chance(50) {
+			hist("go:time-outside-int64-nanoseconds-or-zoned")
+			return common.Pick(r, edgeTimes())
+		}
 		return time.Unix(int64(r.Intn(2000000000)), int64(r.Intn(1000000000))).UTC()
 	case x < 72:
 		hist("go:bytes")
@@ -335,14 +340,15 @@ func (h *harness) bridgeStream(n int) {
 		}
 		ctx.Meta.Evaluations++
 	}
-	loc := time.FixedZone("X", 3600*5)
-	for _, t := range []time.Time{time.Unix(0, 0).UTC(), time.Date(2024, 2, 29, 23, 59, 59, 999999999, time.UTC), time.Date(1969, 7, 20, 20, 17, 0, 0, loc), time.Date(2262, 1, 1, 0, 0, 0, 0, time.UTC)} {
+	for _, t := range edgeTimes() {
 		got := slip.Simplify(slip.SimpleObject(t))
-		if gt, isT := got.(time.Time); !isT || !gt.Equal(t) || gt.Location().String() != t.Location().String() {
-			ctx.Violate("time.Time does not survive SimpleObject/Simplify", t.String(), fmt.Sprint(got), t.String())
+		if gt, isT := got.(time.Time); !isT || !sameTime(gt, t) {
+			ctx.Violate("time.Time does not survive SimpleObject/Simplify", t.Format(time.RFC3339Nano), fmt.Sprint(got), t.String())
 		}
 		ctx.Meta.Evaluations++
+		ctx.Hist("time:bridge")
 	}
+	h.timeStream()
 }
 
 // replayKnownGo replays the known findings whose witness is Go-level.
@@ -358,6 +364,21 @@ func (h *harness) replayKnownGo() {
 		}
 		ctx.KnownResult("C18-invalid-utf8-replaced", got != strconv.QuoteToASCII("a\xffb"), got)
 	}
+	if _, ok := ctx.Known["C18-int64-limit-depends-on-chunking"]; ok {
+		kind := func(in slip.Object) string {
+			scope := slip.NewScope()
+			scope.Let(slip.Symbol("in"), in)
+			scope.Let(slip.Symbol("got"), nil)
+			out := common.EvalIn(scope, "(progn (json-parse (lambda (x) (setq got x)) in) got)")
+			if inst, isBag := out.Value.(*flavors.Instance); isBag && out.Err == "" {
+				return fmt.Sprintf("%T", inst.Any)
+			}
+			return "error"
+		}
+		whole := kind(slip.String("9223372036854775807"))
+		cut := kind(slip.NewInputStream(&chunkReader{data: []byte("9223372036854775807"), r: ctx.Rng}))
+		ctx.KnownResult("C18-int64-limit-depends-on-chunking", whole != cut, "one buffer: "+whole+", small reads: "+cut)
+	}
 	if _, ok := ctx.Known["C18-bridge-false"]; ok {
 		got := slip.Simplify(slip.SimpleObject(false))
 		ctx.KnownResult("C18-bridge-false", got == nil, fmt.Sprint(got))
@@ -370,5 +391,113 @@ func (h *harness) replayKnownGo() {
 	if _, ok := ctx.Known["C18-bridge-uint64"]; ok {
 		got := slip.Simplify(slip.SimpleObject(uint64(1 << 63)))
 		ctx.KnownResult("C18-bridge-uint64", fmt.Sprint(got) != "9223372036854775808", fmt.Sprint(got))
+	}
+}
+
+// timeNanos: nanoseconds since the Unix epoch as a decimal string of any size (UnixNano wraps outside 1677..2262).
+func timeNanos(t time.Time) string {
+	n := new(big.Int).Mul(big.NewInt(t.Unix()), big.NewInt(1000000000))
+	n.Add(n, big.NewInt(int64(t.Nanosecond())))
+	return n.String()
+}
+
+// sameTime: the same instant in a zone with the same name and offset.
+func sameTime(a, b time.Time) bool {
+	an, ao := a.Zone()
+	bn, bo := b.Zone()
+	return a.Equal(b) && ao == bo && an == bn && a.Nanosecond() == b.Nanosecond() && a.Unix() == b.Unix()
+}
+
+// edgeTimes: the zero time, years far outside and just around the range an int64 of nanoseconds can hold
+// (1677-09-21 .. 2262-04-11), fractions of a second, times before year 1 and non-UTC zones.
+func edgeTimes() []time.Time {
+	east := time.FixedZone("EAST", 5*3600+1800)
+	west := time.FixedZone("WEST", -8*3600)
+	base := []time.Time{
+		{},
+		time.Date(1, 1, 1, 0, 0, 0, 1, time.UTC),
+		time.Date(-44, 3, 15, 12, 0, 0, 0, time.UTC),
+		time.Date(1000, 7, 4, 1, 2, 3, 456789012, time.UTC),
+		time.Date(1500, 6, 1, 12, 0, 0, 0, time.UTC),
+		time.Date(1676, 12, 31, 23, 59, 59, 999999999, time.UTC),
+		time.Date(1677, 9, 21, 0, 12, 43, 0, time.UTC),
+		time.Date(1677, 9, 21, 0, 12, 44, 0, time.UTC),
+		time.Date(1678, 1, 1, 0, 0, 0, 0, time.UTC),
+		time.Unix(0, 0).UTC(),
+		time.Date(1969, 7, 20, 20, 17, 0, 5, time.UTC),
+		time.Date(2024, 2, 29, 23, 59, 59, 999999999, time.UTC),
+		time.Date(2262, 4, 11, 23, 47, 16, 854775807, time.UTC),
+		time.Date(2262, 4, 11, 23, 47, 17, 0, time.UTC),
+		time.Date(2263, 1, 1, 0, 0, 0, 0, time.UTC),
+		time.Date(2500, 12, 25, 6, 30, 0, 0, time.UTC),
+		time.Date(9999, 12, 31, 23, 59, 59, 0, time.UTC),
+	}
+	out := append([]time.Time(nil), base...)
+	for i, t := range base {
+		if i%2 == 0 {
+			out = append(out, t.In(east))
+		} else {
+			out = append(out, t.In(west))
+		}
+	}
+	return out
+}
+
+// timeStream: times in bags, judged on the implementation alone: bag-set stores the instant and zone it was
+// given (alone, in a list, in an assoc list), bag-get and bag-native give it back, bag-write with a layout writes
+// what Go's own Format gives, with and without :time-wrap.
+func (h *harness) timeStream() {
+	ctx := h.ctx
+	const layout = "2006-01-02T15:04:05.999999999Z07:00"
+	for _, t := range edgeTimes() {
+		in := map[string]any{"time": t.Format(layout)}
+		scope := slip.NewScope()
+		scope.Let(slip.Symbol("tm"), slip.Time(t))
+		inst := newBag(map[string]any{})
+		scope.Let(slip.Symbol("b"), inst)
+		out := common.EvalIn(scope, "(progn (bag-set b tm \"t\") (bag-set b (list tm 1) \"l\") (bag-set b (list (cons \"k\" tm)) \"m\") (bag-get b \"t\"))")
+		ctx.Meta.Evaluations++
+		ctx.Hist("time:bag")
+		if out.Err != "" {
+			ctx.Violate("bag-set / bag-get of a time failed", in, out.Err+": "+out.Msg, "the time")
+			continue
+		}
+		m, _ := inst.Any.(map[string]any)
+		stored := []any{m["t"]}
+		if l, ok := m["l"].([]any); ok && len(l) == 2 {
+			stored = append(stored, l[0])
+		} else {
+			stored = append(stored, nil)
+		}
+		if mm, ok := m["m"].(map[string]any); ok {
+			stored = append(stored, mm["k"])
+		} else {
+			stored = append(stored, nil)
+		}
+		for i, sv := range stored {
+			if st, ok := sv.(time.Time); !ok || !sameTime(st, t) {
+				ctx.Violate("bag-set does not store the time it was given", map[string]any{"time": t.Format(layout), "where": []string{"t", "l[0]", "m.k"}[i]}, fmt.Sprint(sv), t.String())
+			}
+		}
+		if gt, ok := out.Value.(slip.Time); !ok || !sameTime(time.Time(gt), t) {
+			ctx.Violate("bag-get does not return the time that was set", in, slip.ObjectString(out.Value), t.Format(layout))
+		}
+		nat := common.EvalIn(scope, "(cdr (assoc \"t\" (bag-native b) :test 'equal))")
+		if gt, ok := nat.Value.(slip.Time); nat.Err == "" && (!ok || !sameTime(time.Time(gt), t)) {
+			ctx.Violate("bag-native does not give the time in the bag", in, slip.ObjectString(nat.Value), t.Format(layout))
+		}
+		inst.Any = map[string]any{"t": t}
+		for _, w := range []struct{ args, want string }{
+			{":pretty nil :depth 0 :json t :time-format \"" + layout + "\"", "{\"t\":\"" + t.Format(layout) + "\"}"},
+			{":pretty nil :depth 0 :time-format \"" + layout + "\"", "{t:\"" + t.Format(layout) + "\"}"},
+			{":pretty nil :depth 0 :json t :time-format \"" + layout + "\" :time-wrap \"@\"", "{\"t\":{\"@\":\"" + t.Format(layout) + "\"}}"},
+			{":pretty t :depth 3 :json t :time-format \"" + layout + "\"", "{\"t\": \"" + t.Format(layout) + "\"}"},
+		} {
+			wo := common.EvalIn(scope, "(bag-write b "+w.args+")")
+			ctx.Meta.Evaluations++
+			if txt, ok := wo.Value.(slip.String); wo.Err != "" || !ok || string(txt) != w.want {
+				ctx.Violate("bag-write of a time with a layout differs from Go's Format", map[string]any{"time": t.Format(layout), "write": w.args}, common.ShowOutcome(wo), w.want)
+			}
+		}
 	}
 }
